@@ -45,6 +45,8 @@ def repl(m):
     ob=cov.get('discharged')
     if cov.get('bounded'): ob=f"{ob} (+{len(cov['bounded'])} bounded)"
     return f'| {pid} | {fn} | {ob} |'
-s=re.sub(r'\| (C\d\d) \| [^|]* \| [^|]* \|',repl,s)
+# only the table of section 7.3 (rows "| Cnn | fn | obl | ...")
+a=s.index('### 7.3 The twenty checks'); b=s.index('### 7.4 ')
+s=s[:a]+re.sub(r'^\| (C\d\d) \| [^|]* \| [^|]* \|',repl,s[a:b],flags=re.M)+s[b:]
 open(V+'/DESIGN.md','w').write(s)
 print('caught',det,'of',len(rows))
